@@ -59,7 +59,8 @@ TOnExit == /\ Live /\ Ln.e = "onexit" /\ Ln.a \in Actors(P)
 TIssue == /\ Live /\ Ln.e = "issue"
           /\ Ln.a \in Actors(P) /\ st.ph[Ln.a] = "run" /\ st.pc[Ln.a] = Ln.k /\ Cur(P, st, Ln.a).op = Ln.op
           /\ st' = IF IsLocal(P, st, Ln.a) THEN LocalRet(P, st, Ln.a)          \* no simcall: returns at once
-                    ELSE [st EXCEPT !.ph[Ln.a] = "issued"]
+                    ELSE [st EXCEPT !.ph[Ln.a] = "issued",
+                                    !.tgi[Ln.a] = IF HasTarget(Cur(P, st, Ln.a)) THEN st.inc[Cur(P, st, Ln.a).o] ELSE 0]
           /\ Consume /\ UNCHANGED <<pid, pend, fin>>
 
 \* the simcall class reported by the kernel must be the one the operation is at
